@@ -1,6 +1,8 @@
 import Proofs.C18
 #print axioms C18.series_order_independent_partial
 #print axioms C18.axes_order_independent
+#print axioms C18.cells_hold_exactly_matching_measurements
+#print axioms C18.cells_insertion_order_independent
 #print axioms C18.replace_latest_wins
 #print axioms C18.combine_concatenates
 #print axioms C18.bootstrap_ordered
